@@ -27,7 +27,7 @@ CONFIG = {
                 "vertices on the circle ellipse() samples is printed as circle cx cy r), double conversion of reals",
                 "harness/oas_scan.hpp (CBLOCK splicing, record offsets for the malformed cases), harness/oas_encoder.hpp"],
     "assumptions": ["coordinates below 2^50 grid steps and a unit real giving 1e-15 < precision < 1e3 (beyond that both sides print "
-                    "bigcoord / badunit)", "an allocation of 2^36 bytes or more fails; 2^26 iterations of failing reads do not finish",
+                    "bigcoord / badunit)", "an allocation of 2^36 bytes or more fails; where the model says hang (2^26 iterations of failing reads, 2^32 bytes of table fillers) the result depends on the machine and any implementation result is accepted",
                     "CBLOCK (record 34) is outside the model: such cases are not compared"],
     "thorough_seeds": 1,
 }
@@ -70,8 +70,8 @@ def same(kind, impl, model):
         return True
     if m == "crash":       # the C++ has undefined behaviour on this stream: any result is allowed
         return True
-    if m == "hang":        # resource exhaustion: time limit or failed allocation
-        return _abnormal(i)
+    if m == "hang":        # resource-dependent (>= 2^26 failing iterations, >= 2^32 bytes of table fillers): whether the real run
+        return True        # finishes, is killed by the time limit or runs out of memory depends on the machine
     return False
 
 
